@@ -89,6 +89,15 @@ let answer w obs =
     let s = locate_q x in
     let specv = (try in_rel_interior_q x (canon (parse_simplex obs)) with _ -> false) in
     sstr (canon s) ^ " # " ^ ok (specv && in_rel_interior_q x s)
+  | ["LB"; scale; s] ->
+    let s = parse_simplex s in
+    let vs = vertex_range s in
+    let k1 = { qnum = Zpos XH; qden = (match z_of_int (List.length vs) with Zpos p -> p | _ -> XH) } in
+    let n = List.length (fst s) in
+    let x = List.init n (fun i -> qmult k1 (List.fold_left (fun acc v -> qplus acc { qnum = List.nth v i; qden = XH }) q0 vs)) in
+    let r = locate_q x in
+    let specv = (try in_rel_interior_q x (canon (parse_simplex obs)) with _ -> false) in
+    sstr (canon r) ^ " # " ^ ok (specv && in_rel_interior_q x r)
   | ["K"; scale; v] -> qlist (cart !mat !off (parse_q scale) (parse_vertex v))
   | ["B"; scale; s] ->
     let s = parse_simplex s in
